@@ -141,7 +141,7 @@ func init() {
 		DesignRef: "DESIGN.md 3.12, 4 C12",
 		LevelText: "T.brace: every function of the template packages that emits code is abstractly interpreted with state = net braces/parens of the constant text it emits; branch conditions over never-reassigned locals are enumerated as atoms, switch arms are nondeterministic; all paths of a function must agree, loop bodies and root emitters must be balanced - this holds for all schemas, not only the corpus. GEN.*: the generator built from the working tree must answer every corpus schema (kind x shape matrix, 1..5-byte tags, interleaved oneofs, nesting/recursion, cross-package imports, well-known types, name collisions, sparse enums, the schemas embedded in the checked-in files) with sources that type-check (thorough: also GOARCH=386 and the full 12x17 map matrix), an unknown feature with an error, proto2 / unrequested files with no output. The emitted code is only analysed, never run; the codec engines of C01-C04/C06/C14 (SIZE, ENC, DEC, DET, UNK, BND) are applied to everything the working-tree generator emitted, so a template change that breaks a wire-format clause for some kind x shape x tag-width cell of the corpus is reported here as well. Not decided: totality for schemas outside the corpus beyond T.*; M/paths= parameter handling is protogen's.",
 		Engines:      E{tmpl.RunBrace, tmpl.RunNames, tmpl.RunImports, tmpl.RunKinds, tmpl.RunFlow, tmpl.RunDetPure, tmpl.RunS2, codec.RunSize, codec.RunEnc, codec.RunDec, refl.RunCoh},
-		RulePrefixes: []string{"COH.md", "COH.gotypes", "COH.depidx", "COH.builder", "COH.msgindex", "COH.msginfo", "COH.initchain", "COH.ext", "T.brace", "T.names", "T.imports", "T.kinds", "T.flow", "T.pure", "T.anchor", "GEN", "G.model", "G.anchor", "SIZE", "ENC", "DEC", "DET", "UNK.default", "BND"},
+		RulePrefixes: []string{"COH.md", "COH.gotypes", "COH.depidx", "COH.builder", "COH.msgindex", "COH.msginfo", "COH.initchain", "COH.imports", "COH.ext", "T.brace", "T.names", "T.imports", "T.kinds", "T.flow", "T.pure", "T.anchor", "GEN", "G.model", "G.anchor", "SIZE", "ENC", "DEC", "DET", "UNK.default", "BND"},
 		Floors: []core.Floor{
 			{Rule: "T.brace", Min: 60, Why: "emitting template functions"},
 			{Rule: "T.names", Min: 19, Why: "16 methods + 3 structure rules"},
@@ -205,7 +205,7 @@ func init() {
 		DesignRef: "DESIGN.md 3.2, 3.4, 4 C01",
 		LevelText: "Per field of every generated type: the encoder's payload form and the decoder's read form are the inverse pair the spec prescribes for the kind (varint<->varint accumulated from a zeroed variable of the Go type, zig-zag encode/decode forms, little-endian fixed 4/8, Float bits/frombits so NaN payloads and -0 survive bit-exactly, copy for string/bytes, nested Marshal/Unmarshal through the same options); the decoder has exactly one arm per schema field storing into the Go field mapped to that number, accepting exactly the declared wire type(s); oneof members are emitted unconditionally and decoded as their wrapper; unknown bytes are emitted verbatim and collected verbatim; the encoder's omission guard is the proto3 presence predicate (so a skipped value is the zero value the decoder leaves); marshal's only error return is a nested Marshal error. Not decided: equality of the decoded value for all inputs as an executed comparison (follows from the inverse pairs under A3-A5); UTF-8 validity.",
 		Engines:      E{codec.RunEnc, codec.RunSize, codec.RunDec, codec.RunSkip, lib.RunVarint, codec.RunOpts},
-		RulePrefixes: []string{"OPTS", "ENC", "DEC.form", "DEC.wire", "DEC.cases", "DEC.frame", "DEC.walk", "SIZE.count", "SIZE.walk", "UNK.default", "L.skip", "L.sov", "L.soz", "L.encvarint", "L.anchor", "G.model", "G.anchor", "GEN.build"},
+		RulePrefixes: []string{"OPTS", "ENC", "DEC.form", "DEC.oneofmerge", "DEC.mapaccum", "DEC.wire", "DEC.cases", "DEC.frame", "DEC.walk", "SIZE.count", "SIZE.walk", "UNK.default", "L.skip", "L.sov", "L.soz", "L.encvarint", "L.anchor", "G.model", "G.anchor", "GEN.build"},
 		Floors: []core.Floor{
 			{Rule: "ENC.field", Min: 400, Why: "fields"},
 			{Rule: "DEC.form", Min: 400, Why: "arms"},
@@ -235,7 +235,7 @@ func init() {
 		DesignRef: "DESIGN.md 4 C14",
 		LevelText: "For every generated type: the decoder has exactly one arm per schema field (so no known field reaches the default arm and no unknown number is decoded as a field); the default arm rewinds to the record start, measures the record with runtime.Skip (whose per-wire-type advance is decided in C15), appends exactly dAtA[start:start+n] to x.unknownFields iff !options.DiscardUnknown, and advances by n; options come from runtime.UnmarshalInputToOptions which maps the flag and is handed to every nested decode; marshal writes x.unknownFields first into the back-filled buffer (last on the wire) verbatim and size counts len(x.unknownFields); GetUnknown/SetUnknown read and replace exactly that field. Not decided: a known number arriving with a foreign wire type is rejected, not kept as unknown (outside well-typed streams).",
 		Engines:      E{codec.RunDec, codec.RunEnc, codec.RunSize, codec.RunUnkAccessors, codec.RunOpts, codec.RunSkip, refl.RunCoh, refl.RunNil},
-		RulePrefixes: []string{"COH.msgindex", "NIL.msgmut", "UNK", "DEC.cases", "DEC.flags", "DEC.walk", "ENC.unknown", "ENC.order", "ENC.walk", "SIZE.unknown", "SIZE.walk", "OPTS.discard", "L.skip", "G.model", "G.anchor", "GEN.build"},
+		RulePrefixes: []string{"COH.msgindex", "NIL.msgmut", "UNK", "DEC.cases", "DEC.flags", "DEC.walk", "DEC.form", "DEC.oneofmerge", "DEC.mapaccum", "ENC.unknown", "ENC.order", "ENC.walk", "SIZE.unknown", "SIZE.walk", "OPTS.discard", "L.skip", "G.model", "G.anchor", "GEN.build"},
 		Floors: []core.Floor{
 			{Rule: "UNK.default", Min: 50, Why: "message types"},
 			{Rule: "UNK.accessors", Min: 100, Why: "2 per message type"},
@@ -371,6 +371,7 @@ func init() {
 			{Rule: "COH.legacy", Min: 15, Why: "generated files"},
 			{Rule: "COH.ext", Min: 3, Why: "table, variables and TypeBuilder of the extension-declaring corpus file"},
 			{Rule: "COH.initchain", Min: 20, Why: "registration of every generated file + same-package imports in testpb, test3 and the corpus"},
+			{Rule: "COH.imports", Min: 20, Why: "one per generated file: testpb (3), test3 (3) and the corpus"},
 			{Rule: "COH.proto", Min: 6, Why: "six checked-in generated files with a .proto next to them"},
 			{Rule: "COH.gotypes", Min: 15, Why: "generated files"},
 			{Rule: "COH.depidx", Min: 15, Why: "generated files"},
